@@ -200,6 +200,7 @@ func (m *GRPCServerMuxer) Dial() (net.Conn, error) {
 }
 
 func (m *GRPCServerMuxer) AcceptKnock(id uint32) error {
+	verifhook.Point("smux.acceptknock", id)
 	m.knockCh <- id
 	return nil
 }
